@@ -2,7 +2,7 @@
    Only statements here; proofs live in Proofs/TemplateProofs.v.  Model/Template.v holds the routing parser, the compiler
    to gateway opcodes, the opcode machine of runtime.Pattern.MatchAndEscape and RouteHTTP's per-route step; harness/c03
    ties them to routing/pattern_router.go on binding sets derived from the grammar and URLs parsed like net/http does. *)
-From GB Require Import Model.Template Model.TemplateRun Proofs.TemplateProofs.
+From GB Require Import Model.Template Model.TemplateRun Proofs.TemplateProofs Proofs.TemplateParseProofs.
 Open Scope N_scope.
 
 (* the opcode machine run on a compiled template computes the matching of the template itself: literals compared raw,
@@ -19,6 +19,14 @@ Theorem c03_route_step_spec : forall t comps, forallb seg_ok (t_segs t) = true -
   route_step false (compile t) (t_verb t) comps = spec_step t comps.
 Proof. exact route_step_spec. Qed.
 Print Assumptions c03_route_step_spec.
+
+(* from the TEXT of a binding's template to what it matches, for every template of the grammar: the text parses to the
+   template (C20) and the route compiled from it steps exactly like the template-level specification; the no-nesting
+   hypothesis of the theorems above holds for every such template *)
+Theorem c03_text_to_route : forall t comps, good_template t = true ->
+  exists t', gw_parse false (render t) = Some t' /\ route_step false (compile t') (t_verb t') comps = spec_step t comps.
+Proof. exact text_to_route. Qed.
+Print Assumptions c03_text_to_route.
 
 (* the table lookup over compiled routes is the template-level lookup *)
 Theorem c03_first_route_spec : forall routes comps, (forall ti bi t, In (ti, bi, t) routes -> forallb seg_ok (t_segs t) = true) ->
